@@ -14,6 +14,7 @@ import (
 	"strings"
 	"sync"
 	"sync/atomic"
+	"testing/iotest"
 	"time"
 
 	"github.com/gorilla/mux"
@@ -157,7 +158,7 @@ func (c20) Plan(tier string, seed int64) []core.Scenario {
 	// every pattern x order at least once with a mid-size payload
 	for pat := 0; pat < pCount; pat++ {
 		for order := 0; order < 3; order++ {
-			out = append(out, core.Sc("reader").WithN("len", 6+pat).WithN("content", pat%4).WithN("pat", pat).WithN("order", order).WithN("conc", 1).WithS("transport", []string{"http", "ws"}[order%2]))
+			out = append(out, core.Sc("reader").WithN("len", 6+pat).WithN("content", pat%4).WithN("pat", pat).WithN("order", order).WithN("conc", 1).WithN("rk", (pat+order)%6).WithS("transport", []string{"http", "ws"}[order%2]))
 		}
 	}
 	for i := 0; i < n; i++ {
@@ -165,7 +166,7 @@ func (c20) Plan(tier string, seed int64) []core.Scenario {
 		if tier != "thorough" && li >= len(c20Lens)-2 && i%8 != 0 {
 			li = rng.Intn(len(c20Lens) - 2)
 		}
-		out = append(out, core.Sc("reader").WithN("len", li).WithN("content", rng.Intn(4)).WithN("pat", rng.Intn(pCount)).WithN("order", rng.Intn(3)).WithN("conc", []int{1, 1, 4, 16}[rng.Intn(4)]).WithS("transport", []string{"http", "ws"}[rng.Intn(2)]))
+		out = append(out, core.Sc("reader").WithN("len", li).WithN("content", rng.Intn(4)).WithN("pat", rng.Intn(pCount)).WithN("order", rng.Intn(3)).WithN("conc", []int{1, 1, 4, 16}[rng.Intn(4)]).WithN("rk", rng.Intn(6)).WithS("transport", []string{"http", "ws"}[rng.Intn(2)]))
 	}
 	// many small calls in quick succession from several goroutines: the upload and the RPC request of a call
 	// reach the server within microseconds of each other, and calls overlap
@@ -222,6 +223,67 @@ func c20Burst(sc core.Scenario, r *core.R, cl *readerClient, mu *sync.Mutex, upl
 	r.Key(fmt.Sprintf("burst %s workers=%d", sc.Str("transport"), workers), true)
 	r.Obs("reader_calls", int64(atomic.LoadInt32(&total)))
 	r.Sample(map[string]interface{}{"burst": true, "workers": workers, "calls_each": calls, "transport": sc.Str("transport"), "completed": atomic.LoadInt32(&total)})
+}
+
+var c20ReaderKinds = []string{"bytes.Reader", "one byte per read", "short random reads", "MultiReader of pieces", "io.Pipe", "strings.Reader"}
+
+type dribble struct {
+	data []byte
+	rng  *rand.Rand
+}
+
+func (d *dribble) Read(p []byte) (int, error) {
+	if len(d.data) == 0 {
+		return 0, io.EOF
+	}
+	n := 1 + d.rng.Intn(700)
+	if n > len(d.data) {
+		n = len(d.data)
+	}
+	if n > len(p) {
+		n = len(p)
+	}
+	copy(p, d.data[:n])
+	d.data = d.data[n:]
+	return n, nil
+}
+
+// callerReader wraps the payload in the kind of io.Reader an application might pass.
+func callerReader(kind int, data []byte, seed int64) io.Reader {
+	switch kind {
+	case 1:
+		return iotest.OneByteReader(bytes.NewReader(data))
+	case 2:
+		return &dribble{data: data, rng: rand.New(rand.NewSource(seed))}
+	case 3:
+		var rs []io.Reader
+		for off := 0; off < len(data); {
+			n := 1 + int(seed+int64(off))%997
+			if off+n > len(data) {
+				n = len(data) - off
+			}
+			rs = append(rs, bytes.NewReader(data[off:off+n]))
+			off += n
+		}
+		return io.MultiReader(rs...)
+	case 4:
+		pr, pw := io.Pipe()
+		go func() {
+			for off := 0; off < len(data); {
+				n := 300
+				if off+n > len(data) {
+					n = len(data) - off
+				}
+				pw.Write(data[off : off+n])
+				off += n
+			}
+			pw.Close()
+		}()
+		return pr
+	case 5:
+		return strings.NewReader(string(data))
+	}
+	return bytes.NewReader(data)
 }
 
 func payload(n, content int, rng *rand.Rand, salt byte) []byte {
@@ -369,12 +431,12 @@ func (c20) Run(sc core.Scenario) core.Result {
 		wg.Add(1)
 		go func() {
 			defer wg.Done()
-			results[i].d, results[i].err = cl.Consume(context.Background(), bytes.NewReader(data), pat, fmt.Sprintf("c%d", i))
+			results[i].d, results[i].err = cl.Consume(context.Background(), callerReader(sc.I("rk"), data, sc.Seed+int64(i)), pat, fmt.Sprintf("c%d", i))
 		}()
 	}
 	done := make(chan struct{})
 	go func() { wg.Wait(); close(done) }()
-	label := fmt.Sprintf("%s len=%d content=%d pattern=%s order=%d conc=%d", tr, ln, content, c20PatName[pat], order, conc)
+	label := fmt.Sprintf("%s len=%d content=%d pattern=%s order=%d conc=%d caller-reader=%s", tr, ln, content, c20PatName[pat], order, conc, c20ReaderKinds[sc.I("rk")])
 	if !core.WaitCh(done, 4*core.Grace) {
 		r.Violate("reader-call-hang", "%s: reader-carrying call(s) never returned", label)
 		return r.Result()
@@ -436,9 +498,12 @@ func (c20) Run(sc core.Scenario) core.Result {
 	case ln > 0:
 		lc = "1-2"
 	}
-	r.Key(fmt.Sprintf("%s len=%s content=%d pat=%d order=%d conc=%d", tr, lc, content, pat, order, conc), ln > 0 || pat >= pPastEOF)
+	if ln > 1<<19 && sc.I("rk") == 1 {
+		lc += "(1B reads)"
+	}
+	r.Key(fmt.Sprintf("%s len=%s content=%d pat=%d order=%d conc=%d reader=%d", tr, lc, content, pat, order, conc, sc.I("rk")), ln > 0 || pat >= pPastEOF)
 	r.Obs("reader_calls", int64(conc))
 	r.Obs("bytes_streamed", int64(conc*ln))
-	r.Sample(map[string]interface{}{"transport": tr, "length": ln, "content": []string{"random", "zeros", "0xFF", "cycle"}[content], "pattern": c20PatName[pat], "order": []string{"free", "upload first", "rpc first"}[order], "concurrent_calls": conc})
+	r.Sample(map[string]interface{}{"transport": tr, "length": ln, "content": []string{"random", "zeros", "0xFF", "cycle"}[content], "pattern": c20PatName[pat], "order": []string{"free", "upload first", "rpc first"}[order], "concurrent_calls": conc, "caller_reader": c20ReaderKinds[sc.I("rk")]})
 	return r.Result()
 }
